@@ -275,7 +275,7 @@ func oracleC09(w *World, rec *BlockRecord, txs []*TxInfo) {
 	}
 	// params may be changed by governance inside the block: then the step is not comparable
 	paramsChanged := !pb.MinGasPrice.Equal(pa.MinGasPrice) || w.paramMsgInBlock(txs)
-	if maxGas > 0 && !paramsChanged {
+	if maxGas > 1 && !paramsChanged { // a gas target of zero (max gas 0 or 1) leaves the EIP-1559 step undefined: only "never fails" and the bounds apply
 		// base fee at end-blocker entry (a params message in the block could have changed it)
 		pe := feeParamsOf(o.BeforeEnd)
 		want := NextBaseFeeModel(pe.BaseFee.BigInt(), o.EndGasUsed, uint64(maxGas), pe.MinGasPrice)
@@ -303,8 +303,8 @@ func oracleC09(w *World, rec *BlockRecord, txs []*TxInfo) {
 		if sum != o.EndGasUsed {
 			r.Cross["c09:own_gas_sum_vs_block_meter"]++
 		}
-	} else if maxGas <= 0 {
-		r.Probe("unlimited_block_gas", true)
+	} else if maxGas <= 1 {
+		r.Probe("unlimited_or_zero_target_block_gas", true)
 	}
 	// admission bound: no executed tx below max(base fee, floor(min gas price))
 	for _, t := range txs {
